@@ -203,6 +203,12 @@ template<class T, int D> struct Holder : Base<T> {
 		if(n == "paren") { return paren_<0>(op.pargs, std::tuple<>{}); }
 		if(n == "reindexed") { return wrap<T>(v.reindexed(a[0])); }
 		if(n == "blocked") { return wrap<T>(v.blocked(a[0], a[1])); }
+		if(n == "reindexedl") {
+			if constexpr(D >= 2) { if(a.size() == 2) { return wrap<T>(v.reindexed(a[0], a[1])); } }
+			if constexpr(D >= 3) { if(a.size() == 3) { return wrap<T>(v.reindexed(a[0], a[1], a[2])); } }
+			if constexpr(D >= 4) { if(a.size() == 4) { return wrap<T>(v.reindexed(a[0], a[1], a[2], a[3])); } }
+			throw unsupported("reindexed arity");
+		}
 		if(n == "range") { return wrap<T>(v.range(multi::irange{a[0], a[1]})); }
 		throw unsupported("unknown op " + n);
 	}
